@@ -57,7 +57,7 @@ func (s *Sort) SMT() string {
 	case KReal:
 		return "Real"
 	case KSeq:
-		return "(Seq " + s.Elem.SMT() + ")"
+		return "Sq_" + sqID(s.Elem)
 	case KAny:
 		return "Any"
 	case KData:
@@ -284,7 +284,7 @@ func (w *World) Zero(s *Sort) string {
 	case KReal:
 		return "0.0"
 	case KSeq:
-		return "(as seq.empty " + s.SMT() + ")"
+		return sqEmpty(s.Elem)
 	case KAny:
 		return "anyNil"
 	case KData:
@@ -336,11 +336,24 @@ func (w *World) DataDecls() string {
 		}
 		b.WriteString("))))\n")
 	}
+	// make sure the sequence sorts of all datatype fields are registered before declaring anything
+	for _, n := range append([]string{}, w.dataOrder...) {
+		if si := w.datas[n]; si != nil {
+			for _, f := range si.Fields {
+				_ = f.Sort.SMT()
+			}
+		}
+	}
 	emit("anon")
 	names := append([]string{}, w.dataOrder...)
 	for _, n := range names {
 		emit(n)
 	}
+	data := b.String()
+	b.Reset()
+	b.WriteString(seqSortDecls())
+	b.WriteString(data)
+	b.WriteString(seqFuncDecls())
 	// dynamic type ids as named constants for spec files
 	for _, n := range w.typeNames {
 		fmt.Fprintf(&b, "(define-fun TID_%s () Int %d)\n", sanitize(n), w.typeIDs[n])
